@@ -27,7 +27,13 @@ Inductive case :=
 (* a crafted PrepareRequest handed to a real backup: the facts the glue checks (previous hash, version, state root, number
    of hashes, timestamp, block size, system fee) and per transaction 0 = known and valid, 1 = unknown and not obtainable,
    2 = obtained but invalid, 3 = repetition; what the backup did *)
-| CProposal (prev_ok ver_ok sr_ok cnt_ok ts_ok size_ok fee_ok : bool) (txs : list N) (responded change_view requested : bool).
+| CProposal (prev_ok ver_ok sr_ok cnt_ok ts_ok size_ok fee_ok : bool) (txs : list N) (responded change_view requested : bool)
+(* loss, then synchrony, through the recovery glue at target view w: for every payload a receiver rebuilt from a
+   RecoveryMessage (kind 0 PrepareRequest 1 PrepareResponse 2 Commit 3 ChangeView, the view it carries, the view of the
+   recovery message, the view of the payload it copies (-1: none), equal field by field, witness verifies); the number of
+   synchronous rounds until every live service produced the block; decided, same block, ledgers accept, chain goes on *)
+| CRecovery (n w : N) (items : list (N * N * N * Z * bool * bool)) (rounds : N)
+            (decided same_block accepted after_ok : bool).
 
 Definition sendrec := (N * N * N * N * N * N)%type.   (* index, sender, height, type, view, b *)
 
@@ -154,6 +160,14 @@ Definition check_case (c : case) : N :=
       (* specification: M signatures, each valid for some validator, in validator order, both ledgers accept *)
       let spec := own_ok && other_ok && Nat.eqb (length signers) m && increasing signers (-1)
                   && seq_match (verify_hd cur) (seq 0 (length views)) w in
+      if mech && spec then 0 else if spec then 1 else 2
+  | CRecovery n w items rounds decided same accepted after_ok =>
+      (* mechanism (Consensus/Recovery.v restore): preparations and commits are stamped with the view of the message *)
+      let mech := forallb (fun it => let '(k, v, rv, _, _, _) := it in (k =? 3) || (v =? rv)) items in
+      (* specification: what is rebuilt is what was sent, with its view and a verifiable witness; the height is decided
+         by every live validator within the bound, the same block everywhere, accepted by the ledgers; blocks keep coming *)
+      let spec := forallb (fun it => let '(_, v, _, ov, eq, sg) := it in (Z.of_N v =? ov)%Z && eq && sg) items
+                  && decided && same && accepted && after_ok && (rounds <=? 6) in
       if mech && spec then 0 else if spec then 1 else 2
   | CProposal a b c0 d e f g txs responded cv requested =>
       let '(r, v, q) := proposal_expect a b c0 d e f g txs in
